@@ -568,6 +568,32 @@ func (s *soup) mdDoc() *Node {
 			}
 		}
 	}
+	// an isolated simple cycle of two or three body-level items, each the value of a property of the previous one
+	// through itemref (its own id is on the item; nothing outside refers into the cycle). Every item's crawl is
+	// error-free — the referenced item is not descended into — so the document is valid Microdata although the item
+	// graph is cyclic; each item must stay one node.
+	if s.r.Chance(25) {
+		n := 2 + s.r.Intn(2)
+		var cyc []*Node
+		for i := 0; i < n; i++ {
+			it := s.mdItem(2, &ids, true)
+			setAttr(it, "id", fmt.Sprintf("c%d", i))
+			ref := fmt.Sprintf("c%d", (i+1)%n)
+			if len(plain) > 0 && s.r.Chance(30) {
+				if s.r.Bool() {
+					ref = vh.Pick(s.r, plain) + " " + ref
+				} else {
+					ref += " " + vh.Pick(s.r, plain)
+				}
+			}
+			setAttr(it, "itemref", ref)
+			cyc = append(cyc, it)
+		}
+		for _, it := range cyc {
+			k := s.r.Intn(len(body) + 1)
+			body = append(body[:k:k], append([]*Node{it}, body[k:]...)...)
+		}
+	}
 	return E("html", nil, E("head", nil), E("body", nil, body...))
 }
 
